@@ -152,7 +152,7 @@ PROPS = {
     },
     "C17": {
         "modules": ["Cose.Props.C17", "Cose.Go.ByteStr", "Cose.Props.KeySetRoundtrip"], "families": ["key", "impl", "sig", "ecdh", "dec", "map", "conv", "api"], "spec_ops": ["dec.keyjson", "conv.ed25519", "conv.ecdsa", "conv.ecdh", "conv.gen", "conv.keyset"],
-        "extras": [{"name": "nolink", "pkg": "./nolink", "args": [], "n_quick": 1, "n_thorough": 1}],
+        "extras": [{"name": "nolink", "pkg": "./nolink", "args": [], "n_quick": 1, "n_thorough": 1}, {"name": "nolinksig", "pkg": "./nolinksig", "args": [], "n_quick": 1, "n_thorough": 1}],
         "n_quick": 1000, "n_thorough": 100000,
         "rule": "symmetric / Ed25519 / ECDSA keys with optional and broken members (kty, alg in every Go kind or absent or foreign, kid, key_ops, Base IV, extra labels, wrong sizes), nil key; "
                 "key.info (kty/alg/ops/kid/baseIV), key.factory for the four kinds (registered / not registered / invalid), behaviour of the obtained implementation",
@@ -170,7 +170,8 @@ PROPS = {
     "C10": {
         "modules": ["Cose.Props.C10"], "families": ["sig", "conv", "api"], "spec_ops": ["sig.verify", "sig.decode", "sig.encode", "conv.ed25519", "conv.ecdsa", "conv.gen"],
         "extras": [{"name": "race", "pkg": "./race", "build_flags": ["-race"], "args": ["-seed", "{seed}", "-n", "{n}", "-only", "ecdsa,ed25519,Signer"],
-                    "n_quick": 40, "n_thorough": 600, "timeout": 3000}],
+                    "n_quick": 40, "n_thorough": 600, "timeout": 3000},
+                   {"name": "nolinksig", "pkg": "./nolinksig", "args": [], "n_quick": 1, "n_thorough": 1}],
         "n_quick": 500, "n_thorough": 40000,
         "rule": "ES256/384/512 + EdDSA x keys incl. leading-zero scalars/coordinates x messages 0..70000 bytes; library-made signatures (and r at the codec boundary values 1, 2^k, n-1) verified by the Lean "
                 "ECDSA / Ed25519 reference under public keys in derived / exported / compressed form; every signature then mutated (bit flip, truncation, extension, leading zero, random) and the verdicts compared; "
@@ -203,7 +204,7 @@ PROPS = {
         "families": ["dec", "kdf", "claims", "msg:C02", "msg:C03", "msg:C04", "msg:C06", "map", "cbor", "key", "impl", "sig", "ecdh", "prim:mac", "prim:aead", "prim:kdf", "cwt"],
         "spec_ops": [],
         "n_quick": 250, "n_thorough": 30000,
-        "extras": [{"name": "nolink", "pkg": "./nolink", "args": [], "n_quick": 1, "n_thorough": 1}],
+        "extras": [{"name": "nolink", "pkg": "./nolink", "args": [], "n_quick": 1, "n_thorough": 1}, {"name": "nolinksig", "pkg": "./nolinksig", "args": [], "n_quick": 1, "n_thorough": 1}],
         "rule": "every op of every family runs under recover in the harness (a panic is an answer the model never gives): mutated messages of all 6 kinds (bit flips, truncation, splices, kind swaps), "
                 "malformed CBOR into maps / keys / key sets / recipients / KDF contexts / claims (null and odd-typed members, wrong arity, huge lengths), key factories on arbitrary maps, "
                 "compressed off-curve / short points, primitives with empty data, 65536-byte CCM plaintext, wrong-size nonces / tags / signatures, lengths to 70000; plus a program linking no hash package",
